@@ -520,6 +520,7 @@ def run (caseToks impl : List String) : String :=
   | "up" :: c => up c impl
   | "rs" :: c => rs c impl
   | "st" :: c => C11U.st c impl
+  | "hw" :: c => C11U.hw c impl
   | _ => "E E unknown-kind"
 
 end MosnVerif.Drive.C11
